@@ -26,6 +26,7 @@ type Program struct {
 	Prog   *ssa.Program
 	ByPath map[string]*ssa.Package
 	Specs  map[string]*SpecFile // by package path
+	byName map[string]*ssa.Function
 }
 
 // Load loads every package of the module rooted at repo. overlayGen is called
